@@ -51,9 +51,16 @@ def roundtrip_and_abstract(font_bytes, keep_names, svg_names):
 
 def suite_fonts(ctx, res, n):
     ops, meta = [], []
-    for k in range(n):
-        fmt = C04.ALL_FORMATS[k % len(C04.ALL_FORMATS)]
-        if fmt in ("cbdt", "sbix"):
+    # regression set: a coloured .notdef at each input position, per OT-SVG flavour (fixed seeds: positions 2, 1, 0)
+    fixed = [fontgen.make_colored_notdef_case(sd, f) for f in ("untouchedsvg", "picosvg", "glyf_colr_1") for sd in (0, 1, 2)]
+    for k in range(n + len(fixed)):
+        fmt = C04.ALL_FORMATS[k % len(C04.ALL_FORMATS)] if k < n else fixed[k - n]["fmt"]
+        if k >= n:
+            case = fixed[k - n]
+            out = fontgen.build(case)
+            keep = True
+            data = out.get("bytes")
+        elif fmt in ("cbdt", "sbix"):
             case = C14.gen_font_case(ctx.rng, fmt)
             case["sizes"] = [(min(w, 200), min(h, 200)) for w, h in case["sizes"]]
             out = C14.build_bitmap_font(case)
@@ -64,7 +71,10 @@ def suite_fonts(ctx, res, n):
                 out["font"].save(b)
                 data = b.getvalue()
         else:
-            if k % 2:
+            if k % 5 == 3 or (fmt.startswith("picosvg") and k % 3 == 0):
+                # a coloured .notdef at any input position, sharing a shape with a neighbour
+                case = fontgen.make_colored_notdef_case(ctx.rng.getrandbits(32), fmt)
+            elif k % 2:
                 case = C04.gen_font_case(ctx.rng, fmt)   # prefix-related names, sequences
                 # let shapes recur so <use>/<defs> appear
                 case["svgs"] = [s.replace("M2,2", "M2,2") for s in case["svgs"]]
